@@ -104,3 +104,87 @@ pub fn arg_string_maybe_rejected(max_len: usize) -> impl Strategy<Value = String
 pub fn valid_name() -> impl Strategy<Value = String> {
     "[A-Za-z][A-Za-z_]{0,19}".prop_filter("list keyword prefix", |s| !s.starts_with("command_list"))
 }
+
+// ---- the asynchronous connection as a second sender ---------------------------------------------------
+
+/// In-memory async transport: serves a greeting, accepts at most `max_write` bytes per write.
+pub struct AsyncSink {
+    input: Vec<u8>,
+    pos: usize,
+    pub output: Vec<u8>,
+    max_write: usize,
+    pub writes: usize,
+}
+
+impl tokio::io::AsyncRead for AsyncSink {
+    fn poll_read(
+        mut self: std::pin::Pin<&mut Self>,
+        _cx: &mut std::task::Context<'_>,
+        buf: &mut tokio::io::ReadBuf<'_>,
+    ) -> std::task::Poll<io::Result<()>> {
+        let n = (self.input.len() - self.pos).min(buf.remaining());
+        let pos = self.pos;
+        buf.put_slice(&self.input[pos..pos + n]);
+        self.pos += n;
+        std::task::Poll::Ready(Ok(()))
+    }
+}
+
+impl tokio::io::AsyncWrite for AsyncSink {
+    fn poll_write(mut self: std::pin::Pin<&mut Self>, _cx: &mut std::task::Context<'_>, data: &[u8]) -> std::task::Poll<io::Result<usize>> {
+        let n = data.len().min(self.max_write.max(1));
+        self.output.extend_from_slice(&data[..n]);
+        self.writes += 1;
+        std::task::Poll::Ready(Ok(n))
+    }
+    fn poll_flush(self: std::pin::Pin<&mut Self>, _cx: &mut std::task::Context<'_>) -> std::task::Poll<io::Result<()>> {
+        std::task::Poll::Ready(Ok(()))
+    }
+    fn poll_shutdown(self: std::pin::Pin<&mut Self>, _cx: &mut std::task::Context<'_>) -> std::task::Poll<io::Result<()>> {
+        std::task::Poll::Ready(Ok(()))
+    }
+}
+
+fn async_connection(max_write: usize) -> mpd_protocol::AsyncConnection<AsyncSink> {
+    let io = AsyncSink { input: b"OK MPD 0.23.5\n".to_vec(), pos: 0, output: Vec::new(), max_write, writes: 0 };
+    crate::seg::block_on(mpd_protocol::AsyncConnection::connect(io)).expect("greeting accepted")
+}
+
+/// Bytes `AsyncConnection::send` writes for `cmd` over a transport taking `max_write` bytes per write.
+pub fn async_sent_bytes(cmd: Command, max_write: usize) -> Vec<u8> {
+    let mut c = async_connection(max_write);
+    crate::seg::block_on(c.send(cmd)).expect("write to sink cannot fail");
+    c.into_inner().output
+}
+
+/// Bytes `AsyncConnection::send_list` writes for `list`.
+pub fn async_sent_list_bytes(list: CommandList, max_write: usize) -> Vec<u8> {
+    let mut c = async_connection(max_write);
+    crate::seg::block_on(c.send_list(list)).expect("write to sink cannot fail");
+    c.into_inner().output
+}
+
+/// Both flavours must put the same bytes on the wire, whatever the transport accepts per write.
+pub fn both_flavours_agree(cmd: &Command, list: Option<&CommandList>, max_write: usize) -> Result<(), String> {
+    let b = sent_bytes(cmd.clone());
+    let a = async_sent_bytes(cmd.clone(), max_write);
+    if a != b {
+        return Err(format!(
+            "AsyncConnection::send wrote {:?} (transport accepts {max_write} byte(s) per write), Connection::send wrote {:?}",
+            crate::core::escape_bytes(&a),
+            crate::core::escape_bytes(&b)
+        ));
+    }
+    if let Some(l) = list {
+        let b = sent_list_bytes(l.clone());
+        let a = async_sent_list_bytes(l.clone(), max_write);
+        if a != b {
+            return Err(format!(
+                "AsyncConnection::send_list wrote {:?} (transport accepts {max_write} byte(s) per write), Connection::send_list wrote {:?}",
+                crate::core::escape_bytes(&a),
+                crate::core::escape_bytes(&b)
+            ));
+        }
+    }
+    Ok(())
+}
